@@ -25,7 +25,7 @@ def judge(ctx, trace, chunk=20000):
         ch = trace[i:i + chunk]
         p = write_ndjson(ctx.path("c16_trace_%d.ndjson" % (i // chunk)), ch)
         j = ctx.tlc("SeriesCheckTrace", "SeriesCheckTrace.cfg", workers=1, files={"c16_trace.ndjson": p}, timeout=3000,
-                    heap="6g", tag="judge-%d" % (i // chunk))
+                    heap="4g", tag="judge-%d" % (i // chunk))
         done = prints(j, "DONE")
         if not done or done[0][0] != len(ch):
             raise MachineryError("JUDGE consumed %s of %d trace records" % ((j["distinct"] or 2) - 2, len(ch)))
@@ -52,13 +52,13 @@ def run(ctx, cases_override=None):
         # ---- GEN (b), thorough: every scenario whose selector returns series now - the stratum in which P1 speaks
         n_now = 0
         if thorough:
-            gnow = ctx.tlc("SeriesCheck", "SeriesCheck_GenNow.cfg", tag="gen-now", timeout=3000, workers=w, heap="6g", allow_violation=True)
+            gnow = ctx.tlc("SeriesCheck", "SeriesCheck_GenNow.cfg", tag="gen-now", timeout=3000, workers=w, heap="4g", allow_violation=True)
             nowc = [v[0] for v in prints(gnow, "CASE")]
             nowc.sort(key=lambda c: json.dumps(c, sort_keys=True))
             n_now = len(nowc)
             cases += nowc
         # ---- GEN (c): simulation over the whole space (seeded): one scenario per behaviour
-        want = 120000 if thorough else 3000
+        want = 80000 if thorough else 3000
         sim = ctx.tlc("SeriesCheck", "SeriesCheck_Gen.cfg", tag="gen-sim", timeout=3000, workers=w, heap="4g",
                       simulate=max(1, want // w), depth=6)
         seen = {json.dumps(c, sort_keys=True) for c in cases}
